@@ -1158,6 +1158,8 @@ impl<D: Distance> Writer<D> {
             children_left.clear();
             children_right.clear();
 
+            #[cfg(feature = "verif-hooks")]
+            crate::verif::emit(crate::verif::Event::SplitStart);
             let normal = D::create_split(&children, rng)?;
             #[cfg(feature = "verif-hooks")]
             crate::verif::emit(crate::verif::Event::Normal(normal.as_bytes().to_vec()));
